@@ -5,6 +5,7 @@ import (
 	"go/types"
 	"reflect"
 	"strings"
+	"unicode/utf8"
 
 	"golang.org/x/tools/go/ssa"
 )
@@ -21,6 +22,7 @@ func registerJSON() {
 	intrinsics["encoding/json.NewEncoder"] = iJSONNewEncoder
 	intrinsics["(*encoding/json.Encoder).Encode"] = iJSONEncode
 	intrinsics["(*encoding/json.Decoder).Token"] = iJSONToken
+	intrinsics["unicode/utf8.ValidString"] = iUTF8ValidString
 	intrinsics["encoding/json.NewDecoder"] = iJSONNewDecoder
 	intrinsics["(*encoding/json.Decoder).Decode"] = iJSONDecode
 }
@@ -29,6 +31,11 @@ func iJSONMarshal(in *Interp, fn *ssa.Function, a []Value) Value {
 	v := a[0].(Iface)
 	b := &Blob{Kind: "JSON", Type: v.T, ID: in.newID()}
 	b.Parts = []Value{in.snapshot(v.V, map[interface{}]Value{})}
+	if len(in.illFormed) > 0 {
+		// encoding/json replaces invalid UTF-8 in map keys and string values by U+FFFD: strings the harness marked as
+		// possibly ill-formed leave the encoder as a (possibly) different string
+		b.Parts[0] = in.coerceText(b.Parts[0], map[interface{}]bool{})
+	}
 	in.trace = append(in.trace, fmt.Sprintf("json.Marshal(%s) -> blob#%d", typeStr(v.T), b.ID))
 	return Tuple{in.blobSlice(b), Iface{}}
 }
@@ -670,4 +677,101 @@ func (in *Interp) havoc(t types.Type, tag string, depth int) Value {
 		return m
 	}
 	return in.zero(t)
+}
+
+// ---------- ill-formed text ----------
+//
+// SMT strings are sequences of code points: a Go string that is not valid UTF-8 has no counterpart. The harness can
+// mark a symbolic string as "possibly ill-formed" under a condition c (illFormedIf). The only places where that matters
+// are modelled: utf8.ValidString answers not(c), and encoding/json's encoder rewrites such a string to utf8fix(s), an
+// uninterpreted string that differs from s whenever c holds (U+FFFD replacement; two different ill-formed strings may
+// collide).
+
+func (in *Interp) utf8Fix(t Term) Term {
+	if t.S != SStr || t.C {
+		return t
+	}
+	c, ok := in.illFormed[t.smt()]
+	if !ok {
+		return t
+	}
+	if !in.utf8fixDeclared {
+		in.sess.Cmd("(declare-fun utf8fix (String) String)")
+		in.utf8fixDeclared = true
+	}
+	in.trace = append(in.trace, "json encoder: a possibly ill-formed string is rewritten")
+	fx := "(utf8fix " + t.smt() + ")"
+	in.assume(symBool("(=> " + c.smt() + " (not (= " + fx + " " + t.smt() + ")))"))
+	return symStr("(ite " + c.smt() + " " + fx + " " + t.smt() + ")")
+}
+
+func (in *Interp) coerceText(v Value, seen map[interface{}]bool) Value {
+	switch x := v.(type) {
+	case Term:
+		return in.utf8Fix(x)
+	case Struct:
+		for i := range x {
+			x[i] = in.coerceText(x[i], seen)
+		}
+		return x
+	case Array:
+		for i := range x {
+			x[i] = in.coerceText(x[i], seen)
+		}
+		return x
+	case Tuple:
+		for i := range x {
+			x[i] = in.coerceText(x[i], seen)
+		}
+		return x
+	case Slice:
+		for i := range x.A {
+			x.A[i] = in.coerceText(x.A[i], seen)
+		}
+		return x
+	case *Value:
+		if x == nil || seen[x] {
+			return x
+		}
+		seen[x] = true
+		*x = in.coerceText(*x, seen)
+		return x
+	case *MapObj:
+		if x == nil || seen[x] {
+			return x
+		}
+		seen[x] = true
+		for _, s := range x.Slots {
+			s.K = in.coerceText(s.K, seen)
+			s.V = in.coerceText(s.V, seen)
+		}
+		return x
+	case Iface:
+		x.V = in.coerceText(x.V, seen)
+		return x
+	}
+	return v
+}
+
+func pIllFormedIf(in *Interp, fn *ssa.Function, a []Value) Value {
+	t := a[0].(Term)
+	if t.C {
+		return nil
+	}
+	if in.illFormed == nil {
+		in.illFormed = map[string]Term{}
+	}
+	in.illFormed[t.smt()] = a[1].(Term)
+	return nil
+}
+
+func iUTF8ValidString(in *Interp, fn *ssa.Function, a []Value) Value {
+	t := a[0].(Term)
+	if bs, ok := strConcreteBytes(t); ok {
+		return mkBool(utf8.Valid(bs))
+	}
+	if c, ok := in.illFormed[t.smt()]; ok {
+		return tNot(c)
+	}
+	return mkBool(true) // an SMT string is a sequence of code points
 }
